@@ -11,6 +11,11 @@
 #ifndef VERIF_BITMAP_SPEC_H
 #define VERIF_BITMAP_SPEC_H
 
+/* constant bound of quantifiers over word indexes (bitmap.quant.h); MAXW = no extra bound (SMT) */
+#ifndef QB
+#define QB MAXW
+#endif
+
 #define FULLW (~0UL)
 #define ZEROW 0UL
 
